@@ -626,6 +626,9 @@ def local_names(func_node: ast.AST) -> set:
                 declared_global.update(st.names)
             if isinstance(st, ast.Name) and isinstance(st.ctx, ast.Store):
                 names.add(st.id)
+            if isinstance(st, (ast.Import, ast.ImportFrom)):
+                for al in st.names:
+                    names.add((al.asname or al.name).split(".")[0])
             walk(st)
     return names - declared_global
 
